@@ -11,7 +11,8 @@
         on a character boundary.  Extra hypotheses, each shown necessary by an example:
         newline (real mode) — `TrailOK`; entity — `EntStop` (its regexes ignore `pos_max`);
         emph — single-byte marker (no-panic of the delimiter matching is NOT covered, see OPEN).
-     `inline_rule_progress_link` — link / image, any `skip` / `tok` meeting their contracts.
+     `inline_rule_progress_link` — link / image, any `skip` / `tok` meeting their contracts;
+     `inline_rule_bounds_link` — its extent is a boundary `≤ posMax` (any fuel, no hypothesis).
      `tokenize_progress` — one loop iteration strictly increases `pos` (or fails with a Rust panic).
      `fuel_suffices`, `parseInline_fuel` — `tokenize` never returns `Panic.fuel` with fuel
         `≥ (posMax - pos + 2) * (maxNesting - level + 1)`; the driver's `topFuel` is enough.
@@ -36,8 +37,7 @@
   OPEN (not proved here):
    * no-panic of the WHOLE tokenizer.  Proved: no fuel panic (`fuel_suffices`); no panic of each
      rule without look-ahead recursion under `InlineInv` (+ `TrailOK`, `EntStop`).  Missing for the
-     composition: (a) `pos + len ≤ posMax` / boundary for the link rule (needs `Link.parseInlineTail`
-     end bounds), (b) memoised positions of `skip_token` are boundaries `≤` the CURRENT `posMax`
+     composition: (b) memoised positions of `skip_token` are boundaries `≤` the CURRENT `posMax`
      (the memo is shared between frames with different `posMax`: needs a tiling argument), (c) no
      panic of `scan_and_match_delimiters` (the range arithmetic is covered by `scanAndMatch_ranges`
      in partial-correctness form; the index / `split_off` bounds are not stated as totality).
@@ -53,6 +53,7 @@
 import MdIt.Lemmas.InlineFuel
 import MdIt.Lemmas.InlineVals2
 import MdIt.Lemmas.InlineRanges7
+import MdIt.Lemmas.InlineLinkEnd
 
 namespace MdIt.Inline
 open MdIt.InlineOps (Srcmap getSourcePosFor getMap byteLen slice)
@@ -121,6 +122,32 @@ theorem inline_rule_progress_link {cfg : Cfg} {skip tok : IState → Except Pani
   cases image
   · exact runRule_spec hskip fuel .link st silent htok hm rfl rfl hn hL
   · exact runRule_spec hskip fuel .image st silent htok hm rfl rfl hn hL
+
+/-- **the extent of the link / image rule**: in either mode, with the real `skip_token` below it and
+    at any fuel, the position the tokenizer continues from after a successful call (`pos' + len`;
+    real mode leaves `pos'` at the label end) is a character boundary `≤ posMax`; together with
+    `inline_rule_progress_link` (`pos < pos' + len`) this is the progress statement of the other
+    rules.  No hypothesis on the state: the scan itself ends on `)` / `]` it has sliced. -/
+theorem inline_rule_bounds_link (cfg : Cfg) (f : Nat) (st : IState) (silent : Bool) (image : Bool)
+    {len : Nat} {st' : IState}
+    (h : ruleAt cfg f (if image then .image else .link) st silent = .ok (some len, st')) :
+    st'.pos + len ≤ st.posMax ∧ Boundary st.src (st'.pos + len) := by
+  unfold ruleAt runRule at h
+  cases image
+  · simp only [Bool.false_eq_true, if_false] at h
+    unfold ruleLink at h
+    split at h
+    · simp at h
+    · simp at h
+    · split at h
+      · simp at h
+      · exact linkRule_bounds (skipToken_calm cfg f) h
+  · simp only [if_true] at h
+    unfold ruleImage at h
+    split at h
+    · simp at h
+    · exact linkRule_bounds (skipToken_calm cfg f) h
+    · simp at h
 
 /-! ## 2. look-ahead -/
 
